@@ -743,6 +743,37 @@ def gen_same_session_program(rng):
     return p, steps, {'impl_only': True}
 
 
+def gen_same_abort_program(rng):
+    """Directed family for C19/C20/C08 (implementation only: the model's session ends at the first abort): a task panics inside
+    a nested require; the SAME session is then used for further builds -- the same root again, an unrelated task, a task that
+    requires the one that panicked -- with or without removing the cause in between (external resources, ids >= 50, edited
+    while the session is alive); later sessions build everything.  Nothing may be left 'executing' by the aborted build."""
+    p = Prog(); p.kind = 'panic'; p.exact_only = True
+    p.sources = [50, 51]
+    p.tasks[0] = ('R', 50, 0, ('I', ('l', 2), ('P',), ('T', ('a',))))                         # inner: panics while 50 == 1
+    p.tasks[1] = ('Q', 0, 0, ('T', ('a',)))                                                    # outer: requires inner
+    p.tasks[2] = ('R', 51, 0, ('I', ('l', 2), ('Q', 0, 0, ('T', ('a',))), ('T', ('a',))))       # other: requires inner while 51 == 1
+    roots = [1, 2, 0]
+    if rng.random() < 0.4:
+        p.tasks[3] = ('Q', 1, 0, ('T', ('a',))); roots.append(3)
+    steps = [['E', '50', '1'], ['E', '51', rng.choice(['0', '0', '1'])]]
+    ops = ['q', str(rng.choice([1, 1, 3]) if 3 in p.tasks else 1)]
+    n = 1
+    for _ in range(rng.randint(1, 3)):
+        r = rng.random()
+        if r < 0.25: ops += ['e', '50', '2']
+        elif r < 0.4: ops += ['e', '51', rng.choice(['0', '1'])]
+        else: ops += ['q', str(rng.choice(roots))]
+        n += 1
+    steps.append(['Z', str(n)] + ops)
+    steps.append(['E', '50', '2'])
+    if rng.random() < 0.7: steps.append(['E', '51', '1'])
+    order = roots[:]; rng.shuffle(order)
+    for t in order[:rng.randint(1, len(order))]:
+        steps.append(['S', '1', 'q', str(t)])
+    return p, steps, {'impl_only': True}
+
+
 def gen_mid_session_program(rng):
     """Directed family for C03 (implementation only: the model's edits happen between sessions): resources whose content lives
     OUTSIDE the Pie instance (ids >= 50, like files) change while a Session is alive -- after a top-down require or a first
